@@ -217,7 +217,7 @@ def load_known_findings(pid):
     if not os.path.exists(p):
         return []
     data = json.load(open(p))
-    return [f for f in data.get("findings", []) if f.get("property") == pid]
+    return [f for f in data.get("findings", []) if f.get("property") == pid or pid in f.get("also_properties", [])]
 
 
 # ---------------------------------------------------------------------------
